@@ -54,7 +54,7 @@ Ltac open3 := intros; unfold unit4 in *; orient_unit; cbv zeta; first [progress 
 Ltac gyro_close :=
   let P := fresh "P" in let HPI := fresh "HPI" in
   assert (HPI : PI <> 0) by (pose proof PI_RGT_0; lra);
-  try destr_dec; unfold_c20;
+  try destr_dec;
   match goal with |- Val ?l = _ => match l with context [Rmax ?a ?b - ?c] => set (P := Rmax a b - c) end end;
   match goal with |- _ = Val ?l => match l with context [Rmax ?a ?b - ?c] =>
      replace (Rmax a b - c) with P by (subst P; ptp_eq_with ltac:(try reflexivity; field; exact HPI)) end end;
